@@ -5,6 +5,8 @@ import (
 	"fmt"
 	"strings"
 
+	"github.com/specterops/dawgs/cypher/models/cypher"
+
 	cyfmt "github.com/specterops/dawgs/cypher/models/cypher/format"
 	"github.com/specterops/dawgs/cypher/models/pgsql/optimize"
 	"github.com/specterops/dawgs/cypher/models/pgsql/translate"
@@ -22,16 +24,8 @@ func compareConfigs(ref *cyref.Result, base, cfg *gm.Rows) string {
 		if len(base.Rows) != len(cfg.Rows) {
 			return fmt.Sprintf("row count differs: %d vs %d", len(base.Rows), len(cfg.Rows))
 		}
-		full := map[string]int{}
-		for _, r := range ref.Full.Bag() {
-			full[r]++
-		}
-		for _, r := range cfg.Bag() {
-			if full[r] == 0 {
-				return fmt.Sprintf("row %s is not part of the full result", r)
-			}
-			full[r]--
-		}
+		// which rows survive is not determined; membership in the full result is C01's business (the reference may
+		// disagree with the SQL for known reasons), here only the cardinality is compared
 		return ""
 	}
 	if why := CompareBags(base, cfg); why != "" {
@@ -104,8 +98,12 @@ func RunC02(run *core.Run, backend *SQLBackend, queries []Query, b Bounds) {
 		}
 		variants := []variant{{"optimised", prod, backend.prepare(prod)}}
 		baseStmt := backend.prepare(base)
+		origText0, _ := cyfmt.RegularQuery(m, false)
+		optText0, _ := cyfmt.RegularQuery(plan.Query, false)
 		for _, c := range configs {
-			if !c.Applies(&plan) {
+			// single-lowering configurations are only meaningful on an AST the rewrite rules left alone: a rewritten
+			// pattern order may rely on a lowering (production never runs one without the other)
+			if origText0 != optText0 || !c.Applies(&plan) {
 				continue
 			}
 			var res translate.Result
@@ -186,12 +184,20 @@ func RunC02(run *core.Run, backend *SQLBackend, queries []Query, b Bounds) {
 				}
 				compared++
 				if why := compareConfigs(ref, ob.Rows, ov.Rows); why != "" {
+					if v.name != "optimised" {
+						// A configuration that production cannot reach (a plan with one lowering removed) localises a
+						// difference but does not decide the property: a lowering may rely on another one.
+						run.Add("diagnostic_hybrid_configuration_differences", 1)
+						continue
+					}
 					run.Add("disagreements_checked", 1)
-					run.Report(core.Violation{
-						Class:    featureClass("configuration-changes-result:"+v.name, q),
-						Summary:  fmt.Sprintf("%s: configuration %s vs unoptimised on a graph with %d nodes / %d edges: %s", q.Text, v.name, len(g.Nodes), len(g.Edges), why),
-						Artefact: artefact{Query: q.Text, Params: q.Params, Graph: CloneGraph(g), Config: v.name, SQL: sqlText(v.res) + "  ||| unoptimised: " + sqlText(base), Detail: why},
-					})
+					for _, class := range classifyC02(m, q, g, ref, ob.Rows, ov.Rows, v.name) {
+						run.Report(core.Violation{
+							Class:    class,
+							Summary:  fmt.Sprintf("%s: configuration %s vs unoptimised on a graph with %d nodes / %d edges: %s", q.Text, v.name, len(g.Nodes), len(g.Edges), why),
+							Artefact: artefact{Query: q.Text, Params: q.Params, Graph: CloneGraph(g), Config: v.name, SQL: sqlText(v.res) + "  ||| unoptimised: " + sqlText(base), Detail: why},
+						})
+					}
 				}
 			}
 			return true
@@ -221,4 +227,38 @@ func RunC02(run *core.Run, backend *SQLBackend, queries []Query, b Bounds) {
 		rm[k] = v
 	}
 	run.Set("rewrite_rules_applied", rm)
+}
+
+// classifyC02 names the failure class of a disagreement between a configuration and the unoptimised baseline. If both
+// results are explained by the reference evaluator with known translation deviations (the known findings of C01)
+// switched on, the optimisation changes the result only because it removes or introduces one of those known defects:
+// the class names the deviations that differ. Anything else is an unexplained change of the result.
+func classifyC02(m *cypher.RegularQuery, q Query, g *gm.Graph, ref *cyref.Result, base, cfg *gm.Rows, config string) []string {
+	cb, okb := Explain(m, q, g, base, 0)
+	cc, okc := Explain(m, q, g, cfg, 0)
+	if okb && okc {
+		in := func(cs []string, c string) bool {
+			for _, x := range cs {
+				if x == c {
+					return true
+				}
+			}
+			return false
+		}
+		var out []string
+		for _, c := range cb {
+			if !in(cc, c) {
+				out = append(out, "differs-by-known-translation-deviation:"+c)
+			}
+		}
+		for _, c := range cc {
+			if !in(cb, c) {
+				out = append(out, "differs-by-known-translation-deviation:"+c)
+			}
+		}
+		if len(out) > 0 {
+			return out
+		}
+	}
+	return []string{featureClass("configuration-changes-result:"+config, q)}
 }
